@@ -127,6 +127,14 @@ func WirePacket(r *rand.Rand, maxOpts int) ([]byte, *ref4.P4) {
 			v = v[k:]
 		}
 	}
+	if maxOpts > 0 && r.IntN(6) == 0 {
+		// a fixed-size option sent twice, each instance of its nominal length (relays and buggy servers do this); by
+		// RFC 3396 the value is the concatenation, like for any other code
+		sc := [][2]int{{53, 1}, {54, 4}, {51, 4}, {1, 4}, {58, 4}, {59, 4}, {50, 4}, {57, 2}, {28, 4}, {116, 1}, {2, 4}}[r.IntN(11)]
+		for k := 0; k < 2+r.IntN(2); k++ {
+			insts = append(insts, inst{byte(sc[0]), Bytes(r, sc[1])})
+		}
+	}
 	if overload != 0 && r.IntN(4) != 0 {
 		// option 52 announcing the overloaded fields (sometimes a value that names a field holding a plain name)
 		v := overload
@@ -152,7 +160,17 @@ func WirePacket(r *rand.Rand, maxOpts int) ([]byte, *ref4.P4) {
 		e.Instances = append(e.Instances, ref4.Inst{Code: in.c, Len: len(in.v)})
 	}
 	b = append(b, 255)
-	switch r.IntN(4) {
+	switch r.IntN(5) {
+	case 4: // what follows End looks like more options (a relay agent appending option 82 behind the client's End): ignored
+		t0 := len(b)
+		for k := 1 + r.IntN(3); k > 0; k-- {
+			code := []byte{82, 82, 53, 54, 12, 61}[r.IntN(6)]
+			l := 1 + r.IntN(12)
+			b = append(b, code, byte(l))
+			b = append(b, Bytes(r, l)...)
+		}
+		b = append(b, 255)
+		e.Trailing = len(b) - t0
 	case 0:
 		t := r.IntN(40)
 		for i := 0; i < t; i++ {
